@@ -172,12 +172,12 @@ func (p *scriptProvider) GetRawQuote(rd [64]byte) ([]uint8, error) {
 
 func c15(x *mon.Ctx) {
 	x.Level = "fault_enumeration"
-	x.Rule = "scripted client.Device recording every request: exhaustive grid report request {error, result 0,1,7,8,9} x quote request {error, result 0,1,7,8,9} x status {0, in-flight, error, unavailable, 1, 0x8000000000000002} x OutLen {0, 1, exact, buffer size, buffer size+1, 2^32-1} x 3 report-data values; the device fills the whole 16 KiB buffer so partial / over-long copies are visible. Oracle: success exactly when both requests succeed with result 0, status 0 and 0 < OutLen <= buffer size, and then the result equals the first OutLen bytes the device wrote; report data reaches the device unchanged; the quote request carries the 1024-byte TD report with InLen 1024 and Length = buffer size; every other outcome is an error without data. Quote provider: supported => bytes and error value verbatim and the device untouched; unsupported => the device path is tried (observed through -tdx_guest_device_path pointing at a regular file); GetQuote == QuoteToProto(GetRawQuote). distinct = distinct script."
+	x.Rule = "scripted client.Device recording every request: exhaustive grid report request {error, result 0,1,7,8,9,2^32,9*2^32,0x7fffffff00000000} x quote request {the same} x status {0, in-flight, error, unavailable, 1, 0x8000000000000002} x OutLen {0, 1, exact, buffer size, buffer size+1, 2^32-1} x 3 report-data values; the device fills the whole 16 KiB buffer so partial / over-long copies are visible. Oracle: success exactly when both requests succeed with result 0, status 0 and 0 < OutLen <= buffer size, and then the result equals the first OutLen bytes the device wrote; report data reaches the device unchanged; the quote request carries the 1024-byte TD report with InLen 1024 and Length = buffer size; every other outcome is an error without data. Quote provider: supported => bytes and error value verbatim and the device untouched; unsupported => the device path is tried (observed through -tdx_guest_device_path pointing at a regular file); GetQuote == QuoteToProto(GetRawQuote). distinct = distinct script."
 	valid := validQuotes(x, 1)[0]
 	r := x.Rand("c15")
 	var scripts []*devScript
 	statuses := []uint64{0, labi.GetQuoteInFlight, labi.GetQuoteError, labi.GetQuoteServiceUnavailable, 1, 0x8000000000000002}
-	results := []int{-1, 0, 1, 7, 8, 9} // -1 = the ioctl itself fails
+	results := []int64{-1, 0, 1, 7, 8, 9, 1 << 32, 9 << 32, 0x7fffffff00000000} // -1 = the ioctl itself fails; the last three are non-zero only above bit 31
 	outlens := []uint32{0, 1, uint32(len(valid)), labi.ReqBufSize, labi.ReqBufSize + 1, 1<<32 - 1}
 	for _, rr := range results {
 		for _, qr := range results {
@@ -221,7 +221,7 @@ func c15(x *mon.Ctx) {
 			x.Sample(map[string]any{"script": param, "returned_ok": ok})
 		}
 	})
-	x.Require("device-grid", 9, 3800, 3888)
+	x.Require("device-grid", 9, 8600, 8748)
 	x.Extra["exhaustive"] = true
 
 	// ---- the bytes handed to the caller are the caller's: a later call with another answer must not change them
